@@ -309,6 +309,7 @@ void hooks_json(Json& j) {
 }
 std::string rings_dump(size_t max_per_thread) {
     std::ostringstream o;
+    if (VRT_TSAN) return "(hook rings are not dumped in the tsan variant: reading other threads' rings would itself be reported)";
     size_t shown = 0;
     for (auto* t : hook_threads_snapshot()) {
         unsigned pos = t->ring_pos.load(std::memory_order_relaxed);
